@@ -9,6 +9,8 @@ VP(name, p)  == [k |-> "var", segs |-> <<[t |-> "k", v |-> name], [t |-> "k", v 
 VI(name, i)  == [k |-> "var", segs |-> <<[t |-> "k", v |-> name], [t |-> "i", i |-> i]>>]
 S(s)         == [k |-> "str", v |-> s]
 I(n)         == [k |-> "int", n |-> n]
+\* an integer literal written in another way (exponent form)
+IntT(txt, n) == [k |-> "int", n |-> n, txt |-> txt]
 \* a float literal: its text and the number it denotes (dm / 10^de)
 FloatE(txt, dm, de) == [k |-> "float", txt |-> txt, dm |-> dm, de |-> de]
 NilE         == [k |-> "nil"]
